@@ -24,7 +24,9 @@ from props.c05 import gen_csg
 
 def run(replay=None):
     ck = common.Check("C20", level="proof")
+    rep = common.regen_translators()      # Gen/ProgressFinish_gen.v: ProgressHandler::finish, from the source
     proof = ck.proof_obligations()
+    ck.coverage["translators"] = {k: v for k, v in rep.items() if "Progress" in k or v != "ok"}
     ok_d, log_d = common.build_driver(**common.DRIVERS["pdriver"])
     ok_h, log_h = common.build_harness(["bin/expr"])
     if not ok_h:
